@@ -53,6 +53,31 @@ theorem apT_gather (ap : AP) (axes : List Int) (hr : ap.shape.length ≤ 5)
                            o := { ap.o with transposed := true } } axes) := by
   exact apT_getElem ap axes hr hl hp hne hnse hnv hni
 
+/-- `AP.T` on a two-dimensional vector `(1, n)` / `(n, 1)` (no axes, or the axes `(1, 0)`), **whatever its strides
+    are** (a view of a column, of every k-th element, …): the shape is swapped and the axis that holds the elements
+    keeps its stride; the axis of extent one gets the stride 1. -/
+theorem apT_vector (ap : AP) (a b s0 s1 : Int) (hsh : ap.shape = [a, b]) (hst : ap.strides = [s0, s1])
+    (hv : isVector [a, b] = true) (axes : List Int) (hax : axes = [] ∨ axes = [1, 0]) :
+    ap.T axes = .ok (.ok { shape := [b, a], strides := vectorTStrides b s0 s1, fin := true,
+                           o := { ap.o with transposed := true } } [1, 0]) := by
+  exact apT_vector2 ap a b s0 s1 hsh hst hv axes hax
+
+/-- … and element `(i, j)` of the transposed vector is element `(j, i)` of the source: both address the same cell. -/
+theorem apT_vector_offset (a b s0 s1 i j : Int) (hv : isVector [a, b] = true)
+    (hi : 0 ≤ i ∧ i < b) (hj : 0 ≤ j ∧ j < a) :
+    dot [i, j] (vectorTStrides b s0 s1) = dot [j, i] [s0, s1] := by
+  exact vectorT_dot a b s0 s1 i j hv hi hj
+
+/-- `Transpose()` of a vector with a pending transpose (one stride per axis) moves no data, drops the pending
+    transpose and leaves every element where it was: each in-box coordinate addresses the cell it addressed before,
+    whatever the vector's strides are. -/
+theorem transpose_vector_pure (st : St) (t : Dense) (o : AP) (hold : t.old = some o) (hv : isVector t.shape = true)
+    (hns : isScalar t.shape = false) (hl : t.ap.strides.length = t.ap.shape.length)
+    (hdl : (Dense.defaultStrides t.ap.o.col t.shape).length = t.ap.shape.length) :
+    ∃ t', Dense.transpose st t = .ok (st, t') ∧ t'.old = none ∧ t'.shape = t.shape ∧ t'.win = t.win ∧
+      ∀ c, inBox t.shape c = true → dot c t'.ap.strides = dot c t.ap.strides := by
+  exact transpose_vector st t o hold hv hns hl hdl
+
 /-- Undoing a lazy transpose restores the original tensor exactly (metadata and storage window). -/
 theorem UT_T (st : St) (t t' : Dense) (axes : List Int) (hold : t.old = none) (htw : t.tw = none)
     (h : Dense.T st t axes = .ok (st, t')) : t'.ut = t := by
@@ -94,6 +119,18 @@ example : (match Dense.rollAxes 4 3 1 with | .ok (some [0, 3, 1, 2]) => true | _
 example : (match Dense.rollAxes 4 1 4 with | .ok (some [0, 2, 3, 1]) => true | _ => false) = true := by decide
 example : (match Dense.rollAxes 3 1 2 with | .ok none => true | _ => false) = true := by decide
 example : ValidPerm [2, 0, 1] 3 := by unfold ValidPerm; decide
+-- a column of a 3×3 matrix seen as a (3, 1) vector with strides (3, 1): its transpose (1, 3) keeps the stride 3
+example : (match ({ shape := [3, 1], strides := [3, 1] } : AP).T [] with
+  | .ok (.ok tap _) => tap.shape == [1, 3] && tap.strides == [1, 3] | _ => false) = true := by decide
+-- every second element of a row, a (1, 2) vector with strides (6, 2): its transpose (2, 1) keeps the stride 2
+example : (match ({ shape := [1, 2], strides := [6, 2] } : AP).T [1, 0] with
+  | .ok (.ok tap _) => tap.shape == [2, 1] && tap.strides == [2, 1] | _ => false) = true := by decide
+-- contiguous vectors keep the strides (1, 1) the library has always given them
+example : (match ({ shape := [1, 4], strides := [4, 1] } : AP).T [] with
+  | .ok (.ok tap _) => tap.shape == [4, 1] && tap.strides == [1, 1] | _ => false) = true := by decide
+example : isVector [3, 1] = true ∧ isVector [1, 2] = true := by decide
+-- physical transposition of such a vector: the long axis keeps the stride 3, the unit axis gets the default one
+example : Dense.vectorKeepStrides [1, 3] [3, 1] [1, 3] = [3, 3] := by decide
 example : (match unsafePermute [2, 0, 1] ([10, 20, 30] : List Int) with | .ok (.ok [30, 10, 20]) => true | _ => false) = true := by decide
 
 end TM.C03
